@@ -36,14 +36,17 @@ def apply_unified_diff(repo: str, difftext: str) -> Optional[Dict[str, str]]:
         if not m:
             continue
         rel = m.group(1).strip()
-        with open(os.path.join(repo, rel), encoding="utf-8") as fh:
-            lines = fh.read().split("\n")
+        if re.search(r"^--- /dev/null$", block, flags=re.M):
+            lines = []                                   # a file the change adds
+        else:
+            with open(os.path.join(repo, rel), encoding="utf-8") as fh:
+                lines = fh.read().split("\n")
         out: List[str] = []
         pos = 0
         hunks = re.split(r"^(@@ -\d+(?:,\d+)? \+\d+(?:,\d+)? @@.*)$", block, flags=re.M)[1:]
         for i in range(0, len(hunks), 2):
             hm = re.match(r"@@ -(\d+)(?:,(\d+))? \+", hunks[i])
-            start = int(hm.group(1)) - 1
+            start = max(0, int(hm.group(1)) - 1)
             body = hunks[i + 1].split("\n")[1:]
             # like `git apply`: the hunk may have moved (another change in the file shifted the lines) - look for its old text nearby
             want = [ln[1:] for ln in body if ln.startswith("-") or ln.startswith(" ")]
